@@ -76,20 +76,22 @@ Definition check_case (c : case) : Z :=
       | None => 90
       | Some o =>
           let f := script_fn zero script in
-          let '(r, s) := ir_sem gen_ops gen_fields gen_register gen_methods o ps f c0 in
+          (* the implementation against the chain specification ... *)
           let '(r', s') := spec_sem o ps f c0 in
-          if negb (result_eqb r r' && seen_eqb s (map (fun x : consult => x) s')) then 9
-          else if negb (result_code r =? kind) then 1
-          else if negb (bytes_eqb (result_payload r) payload) then 2
-          else if negb (seen_eqb s seen) then 3
-          else 0
+          if negb (result_code r' =? kind) then 1
+          else if negb (bytes_eqb (result_payload r') payload) then 2
+          else if negb (seen_eqb s' seen) then 3
+          else
+            (* ... and the interpreter over today's translated tables against the same specification *)
+            let '(r, s) := ir_sem gen_ops gen_fields gen_register gen_methods o ps f c0 in
+            if negb (result_eqb r r' && seen_eqb s s') then 9 else 0
       end
   | CSys opi ps script zero c0 effects observed seen =>
       match op_of opi with
       | None => 90
       | Some o =>
           let f := script_fn zero script in
-          let '(r, s) := ir_sem gen_ops gen_fields gen_register gen_methods o ps f c0 in
+          let '(r, s) := spec_sem o ps f c0 in
           if negb (seen_eqb s seen) then 13
           else match r with
                | ROk c' =>
